@@ -61,7 +61,11 @@ ADDTERM_TERM = P.verify(fn(
              ('frame', 'terms_frame(self)'),
              ('same_list_object', 'self.TermList is old(self.TermList)'),
              ('argument_never_stored', 'all(self.TermList[j] is not term for j in range(0, len(self.TermList)))'),
-             ('argument_object_untouched', 'term.Constant == old(term.Constant) and term.Term == old(term.Term) and term.IsBlob == old(term.IsBlob)')],
+             ('argument_object_untouched', 'term.Constant == old(term.Constant) and term.Term == old(term.Term) and term.IsBlob == old(term.IsBlob)'),
+             ('first_term_is_a_fresh_copy', 'implies(old(len(self.TermList)) == 0, len(self.TermList) == 1 and fresh(self.TermList[0]) and '
+                                            'self.TermList[0].Constant == old(term.Constant) and self.TermList[0].Term == old(term.Term) and '
+                                            'self.TermList[0].IsBlob == old(term.IsBlob))'),
+             ('first_term_touches_no_existing_term', "implies(old(len(self.TermList)) == 0, fields_unchanged('Term.Constant', 'Term.Term', 'Term.IsBlob', 'Term.IsSimple'))")],
     raises=[RaisesSpec('LogicError', when='len(self.TermList) > 0 and term.IsBlob', iff=True, ensures=EXC_FRAME)],
 ))
 
